@@ -1,16 +1,16 @@
 import AITB.Model.Proto
-import AITB.Model.POMDP
+import AITB.Model.POMDP3
 import AITB.Model.Interp
-open AITB AITB.MDP AITB.POMDP
+open AITB AITB.MDP AITB.POMDP3
 
 /-!
   Driver for C03.  Every line carries the POMDP, the initial belief, the call parameters and (after `|`) the implementation's exact output.
-  `diff` = executable model (AITB.Model.POMDP) and implementation differ;  `fail` = a clause of the property is false on the
+  `diff` = executable model (AITB.Model.POMDP3) and implementation differ;  `fail` = a clause of the property is false on the
   implementation's own output.
 
   line  := C03 <op> <pomdp> <b0> <op args> | <impl output>
   pomdp := S A γ  T[a][s][s1]…  R[s][a]…  O  Ob[a][s1][o]…
-  The optimal value is enclosed by the two reference families of AITB.Model.POMDP (`upperRefV`, `lowerRefV`), all in exact rationals.
+  The optimal value is enclosed by the two reference families of AITB.Model.POMDP3 (`upperRefV`, `lowerRefV`), all in exact rationals.
 -/
 namespace DrvC03
 
